@@ -288,6 +288,22 @@ def check_drop_count(ctx):
     cand = [n for n, vs in defs_.items() if len(vs) == 1 and isinstance(vs[0], ast.Call) and unparse(vs[0].func).split(".")[-1] in ("round", "ceil", "floor", "int", "trunc")
             and any(isinstance(x, ast.Constant) and x.value == 60 for x in ast.walk(vs[0])) and any(isinstance(x, ast.BinOp) and isinstance(x.op, ast.Sub) for x in ast.walk(vs[0]))]
     if len(cand) != 1:
+      # by its role instead of its formula: the local that is multiplied by 9 (labels dropped in nine minutes out of ten)
+      role = set()
+      for x in own_nodes(f.node):
+        if isinstance(x, ast.BinOp) and isinstance(x.op, ast.Mult):
+          flat, todo = [], [x]
+          while todo:
+            y = todo.pop()
+            if isinstance(y, ast.BinOp) and isinstance(y.op, ast.Mult):
+              todo += [y.left, y.right]
+            else:
+              flat.append(y)
+          if any(isinstance(y, ast.Constant) and y.value == 9 for y in flat):
+            role |= {y.id for y in flat if isinstance(y, ast.Name) and len(defs_.get(y.id, [])) == 1}
+      role = {n for n in role if any(isinstance(c_, ast.Call) for c_ in ast.walk(defs_[n][0])) or isinstance(defs_[n][0], (ast.BinOp, ast.Constant))}
+      cand = sorted(n for n in role if "minute_tens" not in n and "tens" not in n) if len(role) > 1 else sorted(role)
+    if len(cand) != 1:
       raise AnalysisError(f"{q}: the per-minute drop count (round(60 * (nominal - rate))) was not found")
     # the value of the drop count where it is computed, with the locals it reads replaced by what they hold there;
     # the rate (the method's field or the function's parameter) becomes the variable __rate
